@@ -93,7 +93,13 @@ class Contract:
         return A, st2
 
     def summary(self, en, st, a, kw):
+        if not hasattr(self, 'A') and type(self).args is not Contract.args:
+            # auxiliary symbols of the contract (created in args()) are needed by pre/post even when only the summary is used
+            self.args(en, self.param_names(en))
+            self.summary_only = True
         A, st1 = self.bind_call(en, st, a, kw)
+        if getattr(self, 'summary_only', False):
+            self.A = A
         if A is None:
             return [(x.copy(env=st.env), v) for x, v in st1]
         st1 = st1.copy(env=st.env)
@@ -119,19 +125,28 @@ class Contract:
                 k = z3.Int('ek_')
                 en.oblige(st1, f"call:{self.key.split('::')[1]}:pre:all_elems", z3.ForAll([k], z3.Implies(z3.And(k >= 0, k < length(seq)), pred(nth(seq, k)))))
         st2 = self.havoc_frame(en, st1, A)
+        # ghost state private to the callee's own proof: unconstrained here (clauses about it say nothing to the caller)
+        caller_ghost = st2.ghost
+        try:
+            private = {k: fresh(f"callee_ghost_{k}", v.sort()) for k, v in self.ghost0(A).items() if k not in caller_ghost}
+        except Exception:
+            private = {}
+        if private:
+            st2 = st2.copy(ghost={**caller_ghost, **private})
+            st1 = st1.copy(ghost={**st1.ghost, **private})
         outs = []
         r = fresh('ret')
         o = Out('return', r, st2)
         cs = [g for (_, g) in self.post(A, st1, o)]
         q = en.fork(st2, z3.And(*cs) if cs else z3.BoolVal(True))
         if q is not None:
-            outs.append((q, r))
+            outs.append((q.copy(ghost=caller_ghost) if private else q, r))
         e = V.Obj(fresh('ecls', IntS), fresh('eref', IntS))
         o = Out('raise', e, st2)
         cs = [g for (_, g) in self.post(A, st1, o)] + [en.is_instance_of(e, 'Exception')]
         q = en.fork(st2, z3.And(*cs))
         if q is not None:
-            outs.append((q, Raise(e)))
+            outs.append((q.copy(ghost=caller_ghost) if private else q, Raise(e)))
         return outs
 
     def havoc_frame(self, en, st, A):
